@@ -143,7 +143,7 @@ def _overflow_ok(v):
 def _kv(b, spec):
     """value class used in finding keys (coarser than the histogram class)"""
     vc = M.vclass(spec)
-    if vc in ("int", "float", "float-integral"):
+    if vc in ("int", "float", "float-integral", "length"):
         return "number"
     if vc in ("bool", "member") and b is not None and b["kind"] in NUMERIC_KINDS:
         return "int-subclass"
@@ -287,6 +287,44 @@ def check_read(case):
             raise Violation("C11:read-value:type=%s:xsd=%s:form=%s" % (b["sname"], xs, form),
                             "%s: %r reads %r, denotes %r" % (b["id"], lx, val, ex))
     return {"outcome": "read"}
+
+
+def check_rw(case):
+    """a value read from a schema-valid document, assigned back, must write the same number
+    (a value the schema represents exactly may not drift by a quantum on read-modify-write)"""
+    w = M.world()
+    b = w["bindings"].get(case["b"])
+    if b is None:
+        return {"outcome": "binding-gone"}
+    lx = case["lex"]
+    if not M.valid_any(b["xsd"], lx):
+        return {"outcome": "lexical-invalid"}
+    try:
+        v = getattr(_mk(b, lx), b["prop"])
+    except Exception:
+        return {"outcome": "unreadable"}  # reported by the reader case of the same lexical
+    el = _mk(b)
+    try:
+        setattr(el, b["prop"], v)
+    except Exception:
+        return {"outcome": "reads-but-rejects"}
+    lx2 = el.get(b["clark"])
+    if lx2 is None:
+        return {"outcome": "removed-default"}
+    try:
+        if b["kind"] == "float":
+            a, c = float(lx), float(lx2)
+            same = (a != a and c != c) or a == c
+        else:
+            a, c = int(lx), int(lx2)
+            same = a == c or (b["kind"] == "angle" and (a - c) % M.FULL_TURN == 0)
+    except ValueError:
+        return {"outcome": "non-numeric"}  # reported by the setter clause
+    if not same:
+        raise Violation("C11:reread-shifts:type=%s" % b["sname"],
+                        "%s: %s=%r reads %r; assigning that value back writes %r"
+                        % (b["id"], b["attr"], lx, v, lx2))
+    return {"outcome": "stable"}
 
 
 def check_read_group(case):
@@ -889,6 +927,21 @@ def _pairs():
     return out
 
 
+def _rw_lexicals(b):
+    out = []
+    for t in b["xsd"]:
+        out += [l[0] for l in M.lexicals(t) if l[1] in ("int", "double")]
+    if b["kind"] in ("scaled", "angle", "emu-centipoint"):
+        for lo, hi in M.bounds_for(b):
+            lo = -10 ** 7 if lo is None else max(lo, -10 ** 7)
+            hi = 10 ** 7 if hi is None else min(hi, 10 ** 7 if b["kind"] != "angle" else M.FULL_TURN)
+            step = max(1, (hi - lo) // 96)
+            out += [str(k) for k in range(lo, hi + 1, step)]
+            out += [str(k) for k in (7, 13, 29, 57, 1001, 28999, 32300, 57000, 99999, 115000) if lo <= k <= hi]
+    seen = set()
+    return [x for x in out if not (x in seen or seen.add(x))]
+
+
 def enum_cases():
     """deterministic list of all enumerated cases (layer 1 + unbound + layer 2)"""
     w = M.world()
@@ -908,6 +961,9 @@ def enum_cases():
             elif b["xsd"][0][1] == "ST_Lang":
                 cases.append({"k": "readgroup", "b": bid, "form": "lang-tag", "lexs": list(M.LANG_TAGS)})
             continue
+        if b["kind"] in NUMERIC_KINDS:
+            for lx in _rw_lexicals(b):
+                cases.append({"k": "rw", "b": bid, "lex": lx})
         for t in b["xsd"]:
             for lx, form, canon, expect in M.lexicals(t):
                 c = {"k": "read", "b": bid, "lex": lx, "form": form}
@@ -940,6 +996,8 @@ def run_case(case):
         return check_read(case)
     if k == "readgroup":
         return check_read_group(case)
+    if k == "rw":
+        return check_rw(case)
     if k == "tset":
         return check_tset(case)
     if k == "tread":
@@ -977,6 +1035,17 @@ def _note(rec, case, res):
         form = case.get("form") or M.classify_lexical(case["lex"])
         rec.note([b["sname"], [t[1] for t in b["xsd"]], "lex", case["lex"]], form not in CANON_FORMS,
                  classes=["read:%s:%s" % (form, oc), "type:" + b["sname"]])
+    elif k == "rw":
+        b = w["bindings"].get(case["b"])
+        if b is None or oc in ("lexical-invalid", "unreadable", "non-numeric"):
+            rec.discarded += 1
+            return
+        rec.note([b["sname"], [t[1] for t in b["xsd"]], "rw", case["lex"]], True, classes=["rw:%s" % oc])
+        if oc == "reads-but-rejects":
+            rec.extra.setdefault("accepts_less", [])
+            s = "%s reads some valid %s integers it does not accept back" % (b["sname"], "|".join(t[1] for t in b["xsd"]))
+            if s not in rec.extra["accepts_less"]:
+                rec.extra["accepts_less"].append(s)
     elif k == "readgroup":
         b = w["bindings"].get(case["b"])
         if b is None:
@@ -1205,6 +1274,12 @@ def run_job(job, seed, tier, rec, known):
             pre = _pre_lexical(b)
             strat = st.tuples(_num_strategy(b), st.sampled_from([None, pre]))
             search(lambda c, bid=bid: {"k": "set", "b": bid, "v": c[0], "pre": c[1]}, strat, seed * 131 + j, budget)
+        if b["kind"] in ("scaled", "angle", "emu-centipoint"):
+            bd = M.bounds_for(b)[0]
+            lo = bd[0] if bd[0] is not None else -2 ** 31
+            hi = bd[1] if bd[1] is not None else 2 ** 31 - 1
+            ks = st.one_of(st.integers(lo, hi), st.integers(max(lo, -200000), min(hi, 200000))).map(str)
+            search(lambda lx, bid=bid: {"k": "rw", "b": bid, "lex": lx}, ks, seed * 151 + j, max(40, n // 2))
         ls = _lex_strategy(b) if b["kind"] != "enum" else None
         if ls is not None:
             search(lambda lx, bid=bid: {"k": "read", "b": bid, "lex": lx}, ls, seed * 137 + j, max(40, n // 10))
